@@ -1,2 +1,79 @@
-//! verif::joining — guarded hooks (cfg rustybuzz_verif).
+//! verif::joining — guarded hooks (cfg rustybuzz_verif) for property C11: run the real
+//! `arabic_joining` / `get_joining_type` / `setup_masks_inner` of `ot_shaper_arabic.rs` on a buffer
+//! with pre-/post-context and return what they stored per character.
 #![allow(unused_imports)]
+use alloc::string::String;
+use alloc::vec::Vec;
+
+use crate::hb::buffer::{hb_buffer_scratch_flags_t, hb_buffer_t, UnicodeBuffer};
+use crate::hb::ot_shaper_arabic as ar;
+use crate::hb::{hb_mask_t, script};
+
+fn make_buffer(pre: &[char], text: &[char], post: &[char]) -> hb_buffer_t {
+    let mut ub = UnicodeBuffer::new();
+    ub.set_pre_context(&pre.iter().collect::<String>());
+    ub.push_str(&text.iter().collect::<String>());
+    ub.set_post_context(&post.iter().collect::<String>());
+    let mut b = ub.0;
+    // what `set_unicode_props` of ot_shape.rs stores for each character (general category etc.)
+    let mut scratch: hb_buffer_scratch_flags_t = b.scratch_flags;
+    for i in 0..b.len {
+        b.info[i].init_unicode_props(&mut scratch);
+    }
+    b.scratch_flags = scratch;
+    b
+}
+
+/// Per-character `arabic_shaping_action` (0..=7) after the real `arabic_joining`.
+pub fn arabic_actions(pre: &[char], text: &[char], post: &[char]) -> Vec<u8> {
+    let mut b = make_buffer(pre, text, post);
+    ar::verif_arabic_joining(&mut b)
+}
+
+/// The joining class the shaper uses for `c` (table lookup + general-category fallback for X).
+pub fn joining_type(c: char) -> u8 {
+    ar::verif_get_joining_type(c)
+}
+
+/// Tag of the feature whose mask `data_create_arabic` stores at `mask_array[action]`.
+pub fn action_feature(action: u8) -> Option<[u8; 4]> {
+    ar::verif_action_feature(action)
+}
+
+/// Per-character masks after the real `setup_masks_inner` with the given mask array and initial mask.
+pub fn arabic_masks(
+    pre: &[char],
+    text: &[char],
+    post: &[char],
+    mask_array: [hb_mask_t; 8],
+    init_mask: hb_mask_t,
+    mongolian: bool,
+) -> Vec<hb_mask_t> {
+    let mut b = make_buffer(pre, text, post);
+    for i in 0..b.len {
+        b.info[i].mask = init_mask;
+    }
+    let sc = if mongolian { Some(script::MONGOLIAN) } else { Some(script::ARABIC) };
+    ar::verif_setup_masks(mask_array, sc, &mut b);
+    (0..b.len).map(|i| b.info[i].mask).collect()
+}
+
+/// Number of context characters the buffer keeps on each side.
+pub fn context_capacity() -> usize {
+    let b = hb_buffer_t::new();
+    b.context[0].len()
+}
+
+/// `joining_type()` of the generated table alone (X = "decide by general category").
+pub fn raw_joining_type(c: char) -> u8 {
+    crate::hb::ot_shaper_arabic_table::joining_type(c) as u8
+}
+
+/// Whether the general category of `c` is Mn, Me or Cf (the fallback that turns X into T).
+pub fn gc_mark_or_format(c: char) -> bool {
+    use crate::hb::unicode::{hb_unicode_general_category_t as Gc, CharExt};
+    matches!(
+        c.general_category(),
+        Gc::NonspacingMark | Gc::EnclosingMark | Gc::Format
+    )
+}
